@@ -142,6 +142,30 @@ def zip_bytes(node):
                 # written from these objects on close) - a member without any stored mode
                 zf.filelist[-1].external_attr = 0
     data = bio.getvalue()
+    # members that a reader cannot unpack but whose directory entry is complete: the "encrypted" flag, or a
+    # compression method nobody implements (6 = implode); patched into the local and the central header
+    odd = {m["n"]: m for m in node.get("members", []) if m.get("enc") or m.get("method")}
+    if odd:
+        data = bytearray(data)
+        with zipfile.ZipFile(io.BytesIO(bytes(data))) as zf:
+            infos = {zi.filename: zi for zi in zf.infolist()}
+            pos = zf.start_dir
+        for name, m in odd.items():
+            off = infos[name].header_offset
+            if m.get("enc"):
+                data[off + 6] |= 1
+            if m.get("method"):
+                data[off + 8:off + 10] = int(m["method"]).to_bytes(2, "little")
+        while data[pos:pos + 4] == b"PK\x01\x02":
+            nlen, xlen, clen = (int.from_bytes(data[pos + o:pos + o + 2], "little") for o in (28, 30, 32))
+            name = bytes(data[pos + 46:pos + 46 + nlen]).decode("utf-8", "replace")
+            if name in odd:
+                if odd[name].get("enc"):
+                    data[pos + 8] |= 1
+                if odd[name].get("method"):
+                    data[pos + 10:pos + 12] = int(odd[name]["method"]).to_bytes(2, "little")
+            pos += 46 + nlen + xlen + clen
+        data = bytes(data)
     if "truncate" in node:
         data = data[:node["truncate"]]
     if "flip" in node:
